@@ -11,6 +11,7 @@ open BeffVerif.C03
 #print axioms parse_returns_iff_validate
 #print axioms no_mutation_partial
 #print axioms union_parse_drops_proto_named_key
+#print axioms union_builtin_beside_lax_object_loses_leaf
 #print axioms array_intersection_parses_to_object
 #print axioms validate_no_throw
 #print axioms report_no_throw
